@@ -195,7 +195,8 @@ def run(ctx):
             ob.require(ok, 'Version.parse accepts on a path that does not establish membership in the 12 known versions', fvp.where)
             break
     check_dispatch(ctx, 'C07.DISPATCH')
-    adopt_serialisation(ctx)
+    if not getattr(ctx, 'embedded', False):      # run as part of another property's check: that one has them already
+        adopt_serialisation(ctx)
 
 
 def adopt_serialisation(ctx):
